@@ -1,0 +1,53 @@
+//go:build verif
+
+package replication
+
+// Contracts for package replication (C25), checked by /verif/govc. Compiled only with -tags=verif.
+
+//@ import io @/utils/io
+//@ import executor @/executor
+
+// csmType(m): record type of the write set a column-series map was converted from (typestate)
+//@ ghost func csmType(m int) int
+
+//@ func WTSetToCSM
+//@ props C25
+//@ trusted "conversion through RowSeries/ColumnSeries (reflect): only the record-type typestate is stated"
+//@ modifies all
+//@ marks #type: csmType(result0) == old(wtSet.RecordType)
+//@ ensures #inputKept: wtSet.RecordType == old(wtSet.RecordType)
+
+//@ func (ReplayerImpl).writeFunc
+//@ props C25
+//@ trusted "the replica's writer (executor.WriteCSM)"
+//@ modifies all
+//@ requires #ownRecordType: arg1 == (csmType(arg0) == io.VARIABLE)
+
+//@ func (ReplayerImpl).parseTGFunc
+//@ trusted "executor.ParseTGData"
+//@ modifies none
+
+//@ func (*ReplayerImpl).Replay
+//@ props C25
+//@ option noimplicit
+//@ loop 0 invariant #idx: 0 <= iter0 && iter0 <= rangelen
+
+//@ func (encoding/binary.littleEndian).PutUint64
+//@ trusted "stdlib: stores v little-endian into b[0:8]"
+//@ modifies mem:uint8
+//@ requires #len: len(b) >= 8
+//@ ensures #value: le64(b, 0) == v
+//@ ensures #frame: forallint(a, pattern(mem(b)[a]), (a < base(b) || a >= base(b) + 8) ==> mem(b)[a] == old(mem(b))[a])
+
+// Every row written for the replica carries the time the master's reader decodes for the same ticks: Epoch = the
+// second returned by GetTimeFromTicks for (interval start, intervals per day, ticks), nanoseconds likewise.
+//@ func serializeVariableRecords
+//@ props C25
+//@ option noimplicit
+//@ assumepre executor.GetTimeFromTicks.ipd "intervals per day is computed by the caller from the bucket's timeframe (table timeframes)"
+//@ assumepre executor.GetTimeFromTicks.start "epoch seconds of a real interval start"
+//@ forget executor.GetTimeFromTicks.decodeLo executor.GetTimeFromTicks.decodeHi io.Serialize.head8 io.Serialize.head16
+//@ requires #recLen: wtSet.VarRecLen >= 4
+//@ loop 0 invariant #idx: 0 <= i && 0 <= cursor
+//@ loop 0 step #epochIsDecodedSecond: le64(buf, prev(cursor)) == second
+//@ loop 0 step #nanosAreDecoded: le32(buf, cursor - 4) == nanosecond
